@@ -304,6 +304,8 @@ def unionSelect (fx : Fixes) (types : List Int) (offs : Option (List Int)) (nvar
     match offs with
     | none => fail "Only dense unions are supported"
     | some o =>
+      -- `EnumDeserializer::new` stored `offsets` only after checking the two lengths agree
+      if types.length ≠ o.length then fail "Offsets and type ids must have the same length" else
       match types[idx]?, o[idx]? with
       | some t, some off => do
         let off ← tryIntoUsize off
@@ -551,13 +553,17 @@ abbrev Slots := List (Nat × DVal)
 
 def Slots.get? (s : Slots) (k : Nat) : Option DVal := s.lookup k
 
-/-- after the key loop: missing fields are `None` for `Option` targets, an error otherwise -/
+/-- serde's `missing_field`: `None` for an `Option` target, an error otherwise -/
+def slotOrMissing (t : Target) (s : Option DVal) : R DVal :=
+  match s with
+  | some v => .ok v
+  | none => if t.isOption then .ok .none else fail "missing field"
+
+/-- after the key loop: the struct value in target field order -/
 def finishFields : TFields → Nat → Slots → R (List (DVal × DVal))
   | .nil, _, _ => .ok []
   | .cons n t rest, pos, slots => do
-    let v ← match slots.get? pos with
-      | some v => pure v
-      | none => if t.isOption then pure .none else fail "missing field"
+    let v ← slotOrMissing t (slots.get? pos)
     let r ← finishFields rest (pos + 1) slots
     pure ((.str .transient (strBytes n), v) :: r)
 
